@@ -1,5 +1,5 @@
 \* as coded: a second stream Fin hands the Proposal out twice
-CONSTANTS Streams <- MCStreams Choices <- ChXReFin BadBatches <- MCBad InitHeight = 1 MaxHeight = 2
+CONSTANTS Streams = {1} Choices <- ChXReFin1 BadBatches <- MCBad InitHeight = 1 MaxHeight = 2
   InputCap = 2 OutCap = 1 MaxDup = 1 MaxExtra = 0 MaxGot = 2
   FixNilState = TRUE FixBlock = TRUE FixReFin = FALSE SeqWindow = 0 BufBound = 99 Mut = "none"
 INIT Init
